@@ -26,6 +26,7 @@
 #include <string>
 #include <vector>
 #include <fcntl.h>
+#include <malloc.h>
 #include <signal.h>
 #include <sys/mman.h>
 #include <sys/wait.h>
@@ -351,6 +352,12 @@ static void run_sys(const SysVT& v, const std::vector<Op>& ops, int mode, unsign
         if (debug) tok = "ok:o" + std::to_string((unsigned long long)((std::uintptr_t)p % page)); else tok = "ok";
         if (!p) tok += "!null";
         if (op.n > 0 && ((std::uintptr_t)p % v.promised != 0 || (std::uintptr_t)p % v.aT != 0)) tok += "!misaligned";
+        // deep check, any request size: the block the C library (or the manager) really provided must cover n*sizeof(T) bytes
+        if (!debug && p && (unsigned __int128)malloc_usable_size(p) < wide) tok += "!short";
+        if (debug && p && !sane && wide < ((unsigned __int128)1 << 47)) {
+          unsigned long long b = (unsigned long long)wide;
+          if (!writable(p) || !writable((char*)p + b - 1) || !writable((char*)p + b / 2)) tok += "!short";
+        }
         if (sane) {
           if (overlaps(live, (char*)p, bytes)) tok += "!overlap";
           bool w = true;
